@@ -23,7 +23,7 @@ def prop(pid, rules, explanation, decided, not_decided, controls=True, assumptio
 
 
 prop('C19',
-     [T.r19_a, T.r19_b, T.r19_i, T.r19_c, T.r19_d, T.r19_e, T.r19_f, T.r19_h, T.r19_g],
+     [T.r19_a, T.r19_b, T.r19_i, T.r19_c, T.r19_d, T.r19_e, T.r19_f, T.r19_h, T.r19_g, PO.r13_i],
      'Abstract interpretation of the tokenizer (driver next_token + the ordered rule registry, read from the '
      'AST of tokens.py) over category windows: every input string is abstracted to its string of character '
      'categories, guards split abstract states per inspected slot, loops are solved to fixpoint.  The resulting '
@@ -86,7 +86,7 @@ prop('C08',
      'character-for-character equality of output and input; alignment of the output against the input.')
 
 prop('C01',
-     [CV.r08_a_adjacent, CV.r08_b_wellformed, CV.r08_d, CV.r08_e_parse_only, CV.t_agree, CV.r01_a, RO.r11_c, RO.r11_e, L_SKIP, T.r19_b, T.r19_i, T.r19_c, T.r19_f, PO.r13_c, PO.r13_e, PO.r13_g],
+     [CV.r08_a_adjacent, CV.r08_b_wellformed, CV.r08_d, CV.r08_e_parse_only, CV.t_agree, CV.r01_a, RO.r11_c, RO.r11_e, L_SKIP, T.r19_b, T.r19_i, T.r19_c, T.r19_f, T.r19_e, PO.r13_c, PO.r13_e, PO.r13_g, PO.r13_i],
      'The conservation skeleton of C08 restricted to what a well-formed document reaches, plus raw capture of '
      'skipped-environment bodies and rollback completeness of the tokenizer (the spacer rule restores the cursor '
      'exactly when it emits nothing).',
@@ -164,7 +164,7 @@ prop('C02',
 
 
 prop('C13',
-     [T.r19_a, T.r19_e, T.r19_h, PO.r13_b, PO.r13_c, PO.r13_d, PO.r13_e, PO.r13_f, PO.r13_g, PO.r13_h],
+     [T.r19_a, T.r19_e, T.r19_h, PO.r13_b, PO.r13_c, PO.r13_d, PO.r13_e, PO.r13_f, PO.r13_g, PO.r13_h, PO.r13_i],
      'Provenance of positions from the categoriser to the node constructors: the tokenizer abstract interpretation '
      'gives the provenance of every token position; a symbolic (affine) evaluation of the position argument of every '
      'Token built by the Token arithmetic methods; the conservation engine records, for every node the reader builds, '
@@ -196,24 +196,27 @@ prop('C03',
      'exactness of result lists; match semantics of full-expression queries beyond the comparison performed.')
 
 prop('C04',
-     [TR.r04_a, TR.r04_b, TR.r04_c, TR.r04_d, TR.r03_a, TR.r15_d, T.r19_i],
+     [TR.r04_a, TR.r04_b, TR.r04_c, TR.r04_d, TR.r03_a, TR.r15_d, T.r19_i, CV.r08_a],
      'Class-lattice evaluation of the view predicates and def-use rules on the node views.',
      'R04.a contents drops only whitespace-only text, children admits exactly the non-text expression classes, no '
      'view reorders; R04.b both containers are enumerated; R04.c every wrapper has its parent set before it is '
-     'yielded; R04.d iteration and indexing follow contents; R03.a descendants is the closure of contents.',
-     'that the root content list concatenates to the whole document (C01/C08); value-level equalities between views.')
+     'yielded; R04.d iteration and indexing follow contents; R03.a descendants is the closure of contents; R08.a (the '
+     'root clause) nothing the reader consumes is dropped on the way into the content lists.',
+     'that the concatenation of the root content list is character-for-character the document (the structural part '
+     'is R08.a here and the full set under C01/C08); value-level equalities between views.')
 
 prop('C05',
-     [TR.r05_a, TR.r05_e, TR.r05_b, TR.r05_d, TR.r05_c, TR.r15_b, TR.r15_a],
+     [TR.r05_a, TR.r05_e, TR.r05_b, TR.r05_d, TR.r05_c, TR.r15_b, TR.r15_a, TR.r15_c],
      'Search-primitive classification and def-use rules on the edit methods: which primitive locates the target, '
      'which index the replacement uses, where the items of a multi-item insertion go.',
      'R05.a the target is located by identity (expressions compare equal by text, so an equality search edits an '
      'identical twin); R05.b replace inserts at the index returned by the removal on the same container; R05.c several '
-     'inserted items keep their order.',
+     'inserted items keep their order; R15.c what the mutators store in a content list is the expression itself (a '
+     'stored wrapper defeats the identity look-up of the next edit).',
      'the splice equation itself (the resulting text equals the original with the span substituted).')
 
 prop('C15',
-     [TR.r05_a, TR.r05_e, TR.r05_d, TR.r05_c, TR.r15_a, TR.r15_b, TR.r15_c, TR.r15_d, ISO.r17_g, AR.r18_a, AR.r18_f, AR.r18_g, AR.r18_e, CV.r08_e, TR.r04_b],
+     [TR.r05_a, TR.r05_e, TR.r05_d, TR.r05_c, TR.r15_a, TR.r15_b, TR.r15_c, TR.r15_d, ISO.r17_g, AR.r18_a, AR.r18_f, AR.r18_g, AR.r18_e, AR.r18_i, CV.r08_e, TR.r04_b],
      'Effect (frame) analysis of the mutators, a no-memoisation rule on the views, a kind-flow analysis of what can '
      'enter a content list through the public mutators, and totality of the text view over those kinds.',
      'R05.a/c targeted look-up by identity and ordered multi-insert; R15.a a mutator writes only its receiver\'s '
@@ -235,7 +238,7 @@ prop('C17',
      'equality of results across input forms (chunks, files) beyond the flattening step.')
 
 prop('C18',
-     [AR.r18_a, AR.r18_b, AR.r18_c, AR.r18_f, AR.r18_g, AR.r18_h, AR.r18_d, AR.r18_e],
+     [AR.r18_a, AR.r18_b, AR.r18_c, AR.r18_f, AR.r18_g, AR.r18_h, AR.r18_d, AR.r18_e, AR.r18_i, AR.r18_j],
      'Path-wise effect/typestate analysis of the TexArgs mutators (list proper vs. shadow sequence), signature '
      'comparison with list, and def-use of the serialisers.',
      'R18.a every named list operation is overridden and keeps the two sequences paired; R18.b the signatures accept '
